@@ -21,6 +21,7 @@ META = {
     "not_decided": "map semantics over operation histories (lookup results, iteration order)",
     "assumptions": ["Memory::AlignSize returns a power of two >= its argument (checked under C14's memory rules)"],
 }
+META["explanation"] += " " + "PR-capacity's guard form is decided on the CFG: the insert is dominated by the test Size() == Capacity() and reached over its false edge or, over its true edge, only after expand(). (HC-confirm) an equality with a stored hash decides a match only together with a key comparison."
 
 HT = "Qentem::HashTable::"
 
@@ -141,9 +142,62 @@ def run(ctx):
             else:
                 r.ob(f.sig, f.text(c)[:60], False, "insert() is not preceded by a capacity step", f.loc(c))
     ex = m.fn(HT + "expand")
-    t = " ".join(f_ for f_ in [ex.text(c) for c in astq.calls(ex, "resize")]).replace(" ", "")
-    r.ob(ex.q, "growth", "Capacity()==0" in t and "+Capacity()" in t and "*fcast<Qentem::SizeT>({2})" in t or ("*" in t and "{2}" in t and "Capacity()==0" in t),
-         "expand() resizes to (Capacity()==0 + Capacity()) * 2 > Size(): `%s`" % t, "Include/HashTable.hpp:%d" % ex.line)
+    ctx.note_fn(ex)
+    # expand() must ask resize() for more than the current capacity, whatever that is: the argument is evaluated as a linear
+    # form a*c + b in c = Capacity(), once for c == 0 and once for c >= 1 (the test `Capacity() == 0` is the only non-linear atom)
+    locals_init = {d["n"]: d["init"] for s_ in astq.nodes_of(ex, "DeclStmt") for d in ex.nodes[s_]["decls"] if d.get("init", -1) >= 0}
+
+    def lin_c(nid, zero):
+        n = ex.nodes[nid]
+        k = n["k"]
+        if k in ("ParenExpr", "ImplicitCastExpr", "CXXFunctionalCastExpr", "CXXUnresolvedConstructExpr", "InitListExpr", "CStyleCastExpr", "CXXStaticCastExpr") and len(n.get("ch", [])) == 1:
+            return lin_c(n["ch"][0], zero)
+        if k == "IntegerLiteral":
+            return (0, n.get("cv", 0))
+        if k in ("CallExpr", "CXXMemberCallExpr") and ex.call_simple_name(nid) == "Capacity" and not ex.call_args(nid):
+            return (0, 0) if zero else (1, 0)
+        if k == "DeclRefExpr" and n.get("n") in locals_init:
+            return lin_c(locals_init[n["n"]], zero)
+        if k == "BinaryOperator":
+            op = n["op"]
+            if op in ("==", "!="):
+                x, y = lin_c(n["ch"][0], zero), lin_c(n["ch"][1], zero)
+                if x is None or y is None:
+                    return None
+                # c == 0 / 0 == c
+                if {x, y} == {(0, 0)} and zero:
+                    return (0, 1 if op == "==" else 0)
+                if (x, y) in (((1, 0), (0, 0)), ((0, 0), (1, 0))) and not zero:
+                    return (0, 0 if op == "==" else 1)
+                return None
+            x, y = lin_c(n["ch"][0], zero), lin_c(n["ch"][1], zero)
+            if x is None or y is None:
+                return None
+            if op == "+":
+                return (x[0] + y[0], x[1] + y[1])
+            if op == "*" and (x[0] == 0 or y[0] == 0):
+                return (x[0] * y[1] + y[0] * x[1], x[1] * y[1])
+            if op == "<<" and y[0] == 0:
+                return (x[0] << y[1], x[1] << y[1])
+            if op == "|" and not zero is False:
+                return None
+        if k == "ConditionalOperator":
+            cnd = lin_c(n["ch"][0], zero)
+            if cnd is not None and cnd[0] == 0:
+                return lin_c(n["ch"][1] if cnd[1] else n["ch"][2], zero)
+        return None
+    rz = astq.calls(ex, "resize")
+    ok = False
+    why = "expand() does not call resize() exactly once"
+    if len(rz) == 1:
+        arg = ex.call_args(rz[0])[0]
+        z0, z1 = lin_c(arg, True), lin_c(arg, False)
+        if z0 is None or z1 is None:
+            r.broke("expand(): the new capacity `%s` is not a linear form of Capacity()" % ex.text(arg))
+        else:
+            ok = z0[0] == 0 and z0[1] >= 1 and z1[0] >= 1 and (z1[0] - 1) + z1[1] >= 1
+            why = "resize(%s): %d for an empty table, %d*Capacity()%+d otherwise -- %s the current capacity" % (ex.text(arg), z0[1], z1[0], z1[1], "always more than" if ok else "NOT always more than")
+    r.ob(ex.q, "growth", ok, why, "Include/HashTable.hpp:%d" % ex.line)
     rules.append(r)
 
     # ---------------- BORROW (find -> link / item pointer)
@@ -338,6 +392,14 @@ def rule_hash_confirm(ctx, m):
                 return [c for c in astq.calls(f, None, root) if (f.call_simple_name(c) or "") in ("IsEqual", "operator==", "operator!=") and
                         f.call_receiver(c) is not None and f.text(f.call_receiver(c)).endswith("Key")]
             confirm = key_cmp(top)
+            if n["op"] == "==" and not confirm:
+                # `if (Hash == h) { if (Key.IsEqual(..)) {..} }`: everything the hash test guards sits under a key comparison
+                ifs = [x for x in astq.nodes_of(f, "IfStmt") if f.nodes[x]["cond"] == top or top in set(f.walk(f.nodes[x]["cond"]))]
+                if ifs and f.nodes[ifs[-1]]["else"] < 0:
+                    body = f.nodes[ifs[-1]]["then"]
+                    stmts = f.nodes[body].get("ch", []) if f.nodes[body]["k"] == "CompoundStmt" else [body]
+                    if len(stmts) == 1 and f.nodes[stmts[0]]["k"] == "IfStmt" and key_cmp(f.nodes[stmts[0]]["cond"]):
+                        confirm = key_cmp(f.nodes[stmts[0]]["cond"])
             if n["op"] == "!=" and not confirm:
                 # `Hash != h` alone is a sound pre-filter; it decides a match only through the else branch of its if
                 ifs = [x for x in astq.nodes_of(f, "IfStmt") if f.nodes[x]["cond"] == top or top in set(f.walk(f.nodes[x]["cond"]))]
